@@ -1,0 +1,69 @@
+//! Verification hooks (only compiled with `--cfg capy_verif`).
+//!
+//! A thread-local recorder of the scheduling operations `InferenceCtx::finish` performs on its
+//! `TopoSort`, and an optional limit on the number of rounds so that a non-terminating fix-point
+//! loop becomes a deterministic panic. With recording off and no fuel (the default) this does
+//! nothing.
+
+use std::cell::{Cell, RefCell};
+
+pub const FUEL_EXHAUSTED_MSG: &str = "capy_verif: inference round fuel exhausted";
+
+#[derive(Debug, Clone, PartialEq, Eq)]
+pub enum SchedOp {
+    /// the initial `extend`
+    Extend(Vec<String>),
+    /// the start of a round, with the items that are going to be processed in processing order
+    Round { cyclic: bool, offered: Vec<String> },
+    /// `remove(item)`
+    Done(String),
+    /// `insert_deps(item, deps)`
+    Deps(String, Vec<String>),
+}
+
+thread_local! {
+    static TRACE: RefCell<Option<Vec<SchedOp>>> = const { RefCell::new(None) };
+    static ROUNDS: Cell<u64> = const { Cell::new(0) };
+    static ROUND_FUEL: Cell<u64> = const { Cell::new(u64::MAX) };
+}
+
+/// Starts (or stops) recording on this thread, and resets the round counter
+pub fn start_recording(on: bool, round_fuel: Option<u64>) {
+    TRACE.with(|t| *t.borrow_mut() = if on { Some(Vec::new()) } else { None });
+    ROUNDS.with(|r| r.set(0));
+    ROUND_FUEL.with(|f| f.set(round_fuel.unwrap_or(u64::MAX)));
+}
+
+/// Takes what was recorded so far
+pub fn take_trace() -> Vec<SchedOp> {
+    TRACE.with(|t| {
+        t.borrow_mut()
+            .as_mut()
+            .map(std::mem::take)
+            .unwrap_or_default()
+    })
+}
+
+pub fn rounds() -> u64 {
+    ROUNDS.with(|r| r.get())
+}
+
+pub(crate) fn record(op: impl FnOnce() -> SchedOp) {
+    TRACE.with(|t| {
+        if let Some(trace) = t.borrow_mut().as_mut() {
+            trace.push(op());
+        }
+    });
+}
+
+pub(crate) fn round() {
+    let n = ROUNDS.with(|r| {
+        let n = r.get() + 1;
+        r.set(n);
+        n
+    });
+    if n > ROUND_FUEL.with(|f| f.get()) {
+        ROUND_FUEL.with(|f| f.set(u64::MAX));
+        panic!("{}", FUEL_EXHAUSTED_MSG);
+    }
+}
